@@ -139,7 +139,12 @@ def make(verif, repo, scratch, unit):
         unit["_rewritten_files"] = n
     # statement-level hook points in selected functions (tools/stmtpoints): the
     # instrumented copy is produced from the CURRENT working-tree file
-    sp = unit.get("stmtpoints") or {}
+    sp = dict(unit.get("stmtpoints") or {})
+    # Core-level harnesses own the "a lease's timer fired" event: the production strategy
+    # (hand the lease to the revocation workers) is cut off at its first statement by a hook
+    # installed in internal/verifh/core/base_test.go; expiry is handled by Sys.Drain instead.
+    if unit.get("pkg", "").rstrip("/") == "./internal/verifh/core":
+        sp.setdefault("internal/vault/expiration.go", "expireLeaseStrategyFairsharing")
     if sp:
         tool = _stmt_tool(verif)
         spdir = os.path.join(scratch, "sp." + unit["name"])
